@@ -310,8 +310,13 @@ def _get_function_insertion_lineno(
 
 def _get_constant_insertion_lineno(scope: ast.AST) -> int:
     import_types = (ast.Import, ast.ImportFrom)
-    imports = [node for node in scope.body if not isinstance(node, import_types)]
-    return min((node.lineno for node in imports)) - 1
+    body = scope.body
+    if len(body) > 1 and core.match_template(body[0], ast.Expr(value=ast.Constant(value=str))):
+        body = body[1:]  # The docstring has to remain the first statement
+    non_imports = [node for node in body if not isinstance(node, import_types)]
+    if not non_imports:
+        return body[-1].end_lineno
+    return min((node.lineno for node in non_imports)) - 1
 
 
 def create_abstractions(source: str) -> str:
